@@ -80,6 +80,7 @@ Section Scans.
     unfold gen_offwarm_env_state, gen_offwarm_policy_state, gen_offwarm_buffer.
     rewrite !Nat2Z.id.
     change (ksplit_keys k n) with (split_keys k n).
+    unfold kfoldmapi.
     match goal with |- context [kfoldmap ?f _ _] => set (F := f) end.
     assert (HF : forall b c es0 ps0 k0,
       let r := fst (F (b, c, es0, ps0) k0) in
@@ -98,6 +99,7 @@ Section Scans.
     unfold gen_offcollect_env_state, gen_offcollect_policy_state, gen_offcollect_buffer.
     rewrite !Nat2Z.id.
     change (ksplit_keys k n) with (split_keys k n).
+    unfold kfoldmapi.
     match goal with |- context [kfoldmap ?f _ _] => set (F := f) end.
     assert (HF : forall b c es0 ps0 k0,
       let r := fst (F (b, c, es0, ps0) k0) in
